@@ -83,6 +83,8 @@ func (e *EQuant) exprString() string {
 			bs = append(bs, b.Name+" in elems("+b.A.exprString()+")")
 		case "range":
 			bs = append(bs, b.Name+" in "+b.A.exprString()+".."+b.B.exprString())
+		case "set":
+			bs = append(bs, b.Name+" in "+b.A.exprString())
 		default:
 			bs = append(bs, b.Name+": "+b.Type)
 		}
@@ -240,10 +242,14 @@ func (p *parser) formula() Expr {
 					b.A = p.formula()
 					p.expectOp(")")
 				} else {
-					b.Kind = "range"
 					b.A = p.add()
-					p.expectOp("..")
-					b.B = p.add()
+					if p.isOp("..") {
+						b.Kind = "range"
+						p.next()
+						b.B = p.add()
+					} else {
+						b.Kind = "set"
+					}
 				}
 			} else if p.isOp(":") {
 				p.next()
